@@ -4,6 +4,7 @@ from core import norm, L_call, L_variant
 import panics
 
 META = {
+    "thorough_extra": ["mocks", "client-only", "aws"],
     "level": "other",
     "explanation": "E-PANIC: every panic-capable site (panic!/unreachable!/assert! expansions, Option/Result unwrap/expect, slice/str/container indexing, from_static, "
                    "Instant/Duration arithmetic, overflow/bounds/division Assert terminators) is inventoried from the MIR of the whole crate; the sites in functions reachable "
@@ -77,6 +78,15 @@ def _tls_domain_validated(facts, s):
     return True, ""
 
 
+def _take_of_bounced(facts, s):
+    f = s.fn
+    from core import CallSite
+    c = CallSite(f, s.bb, f.term(s.bb))
+    rr = f.roots(c.args[0], through_calls=True)
+    ok = any(r.kind == "call" and r.site.is_("client::pool::Pooled::take") for r in rr) and any(r.kind == "call" and r.site.is_("tokio::sync::oneshot::Sender::send") for r in rr)
+    return ok, "the unwrap is no longer applied to Pooled::take() of a Pooled bounced back by send()"
+
+
 def _host_guard(facts, s):
     # set_host_header closure: `uri.host().expect(..)` inside or_insert_with, reached only when uri.authority()/host() is Some
     f = facts.fn("service::host::set_host_header")
@@ -102,7 +112,7 @@ TABLE = {
     r"^<client::pool::checkout::Checkout as futures_core::Future>::poll\|panic\|panic_fmt": ("by-construction", "ConnectingWithDelayDrop(None) exists only after as_delayed() moved the connector out, which happens in drop: polling afterwards is impossible"),
     r"^client::pool::key::TokenMap::insert::\{closure#0\}\|option-unwrap\|unwrap": ("by-construction", "checked_add(1).or(NonZero::new(1)) is always Some"),
     r"^<client::pool::key::UriKey as std::convert::TryFrom>::try_from::\{closure#0\}\|result-unwrap\|unwrap": ("by-construction", "Uri::from_parts of parts obtained from Uri::into_parts round-trips"),
-    r"^client::pool::PoolInner::push\|option-unwrap\|unwrap": ("by-construction", "Pooled::take() of the Pooled that was just built with connection: Some(..) and bounced back by send()"),
+    r"^client::pool::PoolInner::\w+\|option-unwrap\|unwrap": ("guarded", "Pooled::take() of the Pooled that was just built with connection: Some(..) and bounced back by oneshot send()", lambda facts, s: _take_of_bounced(facts, s)),
     r"^client::conn::transport::TransportExt::with_optional_tls\|panic": ("by-construction", "builder-time assertion (configuration), not on the request path"),
     r"^client::Client::get::\{closure#0\}\|result-unwrap\|unwrap": ("by-construction", "Request::builder() with only a uri and method GET: building cannot fail for a Uri value"),
     r"^service::host::set_host_header::\{closure#0\}\|option-unwrap\|expect\|authority implies host": ("guarded", "reached only after uri.host() was checked to be present", _host_guard),
